@@ -245,7 +245,7 @@ Proof. intros H; inversion H; reflexivity. Qed.
 
 Theorem inv_step cfg s e s' acts : inv cfg s -> step cfg s e = (s', acts) -> inv cfg s'.
 Proof.
-  intros Hinv H. destruct e as [src tid c r unk|src p d|src n d|relay from d|dt|relay|csrc|]; cbn [step] in H.
+  intros Hinv H. destruct e as [src tid c r unk|src p d|src n d|relay from d|dt|relay|csrc| |]; cbn [step] in H.
   - destruct unk; [inversion H; subst; assumption|].
     destruct r as [tr lt fam df rp|lt fam|peers|n p|]; try (inversion H; subst; assumption);
       destruct (authenticate cfg s c) as [uid|code ch]; try (inversion H; subst; assumption).
@@ -260,6 +260,7 @@ Proof.
   - eapply h_relay_err_inv; eauto.
   - eapply h_ctl_close_inv; eauto.
   - eapply h_srv_close_inv; eauto.
+  - inversion H; subst; assumption.
 Qed.
 
 Lemma inv_init cfg ep : inv cfg (init ep).
